@@ -3,6 +3,6 @@
 tier=${1:-quick}; seed=${2:-0}
 cd "$(dirname "$0")/.." && mkdir -p .work
 run() { c=$1; s=$(date +%s); VERIF_SEED=$seed ./check $c --tier $tier > .work/runall_${c}_${tier}_${seed}.out 2>&1; e=$?; echo "$c tier=$tier seed=$seed exit=$e $(( $(date +%s) - s ))s $(grep -c VIOLATION .work/runall_${c}_${tier}_${seed}.out) violations"; }
-for grp in ${GROUPS_OVERRIDE:-"C01 C02" "C03 C04" "C05 C06" "C07 C08" "C09 C10" "C11 C12" "C13 C14" "C15 C16" "C17 C18" "C19 C20" "X01 X02"}; do
+for grp in ${GROUPS_OVERRIDE:-"C01 C02" "C03 C04" "C05 C06" "C07 C08" "C09 C10" "C11 C12" "C13 C14" "C15 C16" "C17 C18" "C19 C20" "X01 X02" "X03"}; do
   for c in $grp; do run $c & done; wait
 done
